@@ -98,22 +98,43 @@ def check(prog, run):
     for m, lp, (label, pred, dup) in loops:
         var = lp.target.id
         own = [x for st in lp.body for x in _walk_no_inner_loops(st)]
-        names_checked = any(isinstance(x, ast.Call) and isinstance(x.func, ast.Attribute) and x.func.attr == "check_valid_name" and x.args
-                            and ast.unparse(x.args[0]) == "%s.name" % var for x in own)
+        # the per-member work may be factored out into a helper that receives the member: look inside it too
+        scopes = [(own, var)]
+        for x in own:
+            if isinstance(x, ast.Call):
+                for i, a in enumerate(x.args):
+                    if isinstance(a, ast.Name) and a.id == var:
+                        for callee in prog.resolve_call(m, x):
+                            if callee.module.name != VAL or callee.name in ("check_valid_name", "add_error"):
+                                continue
+                            ps = callee.params
+                            off = 1 if (callee.cls is not None and ps and ps[0] in ("self", "cls")) else 0
+                            if i + off < len(ps):
+                                run.looked_at(callee)
+                                scopes.append(([y for st in callee.node.body for y in _walk_no_inner_loops(st)], ps[i + off]))
+
+        def anywhere(pred_fn):
+            return any(pred_fn(x, v) for nodes, v in scopes for x in nodes)
+        names_checked = anywhere(lambda x, v: isinstance(x, ast.Call) and isinstance(x.func, ast.Attribute) and x.func.attr == "check_valid_name" and x.args
+                                 and ast.unparse(x.args[0]) == "%s.name" % v)
         r.instance("%s: loop over %s `%s` name-check=%s" % (m.name, label, norm_stmt(lp), names_checked))
         key = "%s:SchemaValidator.%s:%s-loop" % (VAL, m.name, label.replace(" ", "-"))
         if not names_checked:
             run.report(r, key + ":no-name-check", m.where(lp), "%s names are never passed to check_valid_name: a schema with an invalid %s name is accepted" % (label, label))
         if pred:
-            ok = any(isinstance(x, ast.Call) and isinstance(x.func, ast.Name) and x.func.id == pred and x.args and ast.unparse(x.args[0]) == "%s.type" % var for x in own)
+            ok = anywhere(lambda x, v: isinstance(x, ast.Call) and isinstance(x.func, ast.Name) and x.func.id == pred and x.args and ast.unparse(x.args[0]) == "%s.type" % v)
             other = "is_input_type" if pred == "is_output_type" else "is_output_type"
-            wrong = any(isinstance(x, ast.Call) and isinstance(x.func, ast.Name) and x.func.id == other and x.args and ast.unparse(x.args[0]) == "%s.type" % var for x in own)
+            wrong = anywhere(lambda x, v: isinstance(x, ast.Call) and isinstance(x.func, ast.Name) and x.func.id == other and x.args and ast.unparse(x.args[0]) == "%s.type" % v)
             if not ok or wrong:
                 run.report(r, key + ":position", m.where(lp), "%s types are not checked with %s" % (label, pred))
         if dup:
-            tests = [x for x in own if isinstance(x, ast.Compare) and isinstance(x.ops[0], ast.In) and ast.unparse(x.left) == "%s.name" % var]
-            adds = [x for x in own if isinstance(x, ast.Call) and isinstance(x.func, ast.Attribute) and x.func.attr == "add" and x.args and ast.unparse(x.args[0]) == "%s.name" % var]
-            if not tests or not adds or ast.unparse(tests[0].comparators[0]) != ast.unparse(adds[0].func.value):
+            dup_ok = False
+            for nodes, v in scopes:
+                tests = [x for x in nodes if isinstance(x, ast.Compare) and isinstance(x.ops[0], (ast.In, ast.NotIn)) and ast.unparse(x.left) == "%s.name" % v]
+                adds = [x for x in nodes if isinstance(x, ast.Call) and isinstance(x.func, ast.Attribute) and x.func.attr == "add" and x.args and ast.unparse(x.args[0]) == "%s.name" % v]
+                if tests and adds and ast.unparse(tests[0].comparators[0]) == ast.unparse(adds[0].func.value):
+                    dup_ok = True
+            if not dup_ok:
                 run.report(r, key + ":duplicates", m.where(lp), "duplicate %s names are not detected" % label)
 
     # ---- V4 the validator inspects the resolver the executor will call
@@ -156,11 +177,26 @@ def check(prog, run):
                 run.report(r, "%s:%s:raises" % (VAL, m.qualname), m.where(x), "%s raises instead of accumulating: later violations are not reported together" % m.qualname)
     vs = prog.get_func(VAL, "validate_schema")
     run.looked_at(vs)
-    ok = False
-    for x in own_nodes(vs.node):
-        if isinstance(x, ast.If) and ast.unparse(x.test) in ("not validator", "validator.errors") and shapes.raises_unconditionally(x.body):
-            if "SchemaValidationError(validator.errors)" in ast.unparse(x.body[-1]):
-                ok = True
+    from .. import boolx
+    ok = True
+    for has_errors in (True, False):
+        def decide(t, has_errors=has_errors):
+            if t == "validator":
+                return not has_errors
+            if t == "validator.errors":
+                return has_errors
+            return None
+        try:
+            _ev, vexits = boolx.walk_under(vs.node, decide)
+        except ValueError as e:
+            raise AnalysisError("C13.V3: %s" % e)
+        for kind, st, env in vexits:
+            if has_errors:
+                good = kind == "raise" and st.exc is not None and "SchemaValidationError(validator.errors)" in " ".join(ast.unparse(st.exc).split())
+            else:
+                good = kind != "raise"
+            ok = ok and good
+        ok = ok and bool(vexits)
     r.instance("validate_schema raises iff errors: %s" % ok)
     if not ok:
         run.report(r, "%s:validate_schema:verdict" % VAL, vs.where(), "validate_schema does not raise SchemaValidationError(validator.errors) exactly when errors were collected")
@@ -244,7 +280,7 @@ def check(prog, run):
                 ok = False
                 if kind == "return" and st.value is not None:
                     v = st.value
-                    atoms = {k: x for k, x in env.items() if k not in (boolx.CALLS, boolx.STMTS)}
+                    atoms = {k: x for k, x in env.items() if k not in boolx.META}
                     if w[0] == "rec":
                         ok = isinstance(v, ast.Call) and isinstance(v.func, ast.Attribute) and v.func.attr == "is_subtype" and \
                             [" ".join(ast.unparse(x).split()) for x in v.args] == [w[1], w[2]]
